@@ -1,6 +1,8 @@
 import Proofs.C01Mux
 import Proofs.C06Pipe
 import Proofs.C06Lock
+import Proofs.C06Exec
+import Proofs.C06Ctl
 /-!
 # C06 — every request ends exactly once; streams are never leaked (property theorems)
 
@@ -180,6 +182,188 @@ example : ∃ st, MuxPipe.run (MuxPipe.init 128)
      .handGone, .mux (.acquire 2 5), .mux (.wrote 2), .mux (.answer 5 1 2), .recvHeader 5, .recvBodyEnd, .handResp] = some st ∧
     st.m.pc 1 = .done .ctxErr ∧ st.m.pc 2 = .done (.resp 2 1 2) ∧ st.m.clears 1 = 1 ∧ st.m.owner 5 = none ∧ st.rcv = .idle := by
   refine ⟨_, rfl, ?_, ?_, ?_, ?_, ?_⟩ <;> decide
+
+/-! ## The program points of Conn.exec (`Model/MuxExec.lean`): GetStream and addCall as two steps, the 'frame was never
+    written' exits as three (close(call.timeout) / delete from c.calls / Clear), releaseStream after a response as its
+    own step, closeWithError as its first critical section, ONE ROUND of its delivery loop per step, and its end (only
+    then is the connection's context cancelled). All theorems: every action list from the initial state, i.e. every
+    interleaving of any number of callers, the receive loop, the server and a closer. -/
+
+/-- exec is never refused with "attempting to use stream already in use": an id the allocator hands out is never still
+    registered in c.calls (the refusal would also leak the id: exec returns from a failed addCall without clearing it).
+    This is the theorem that seeded changes C06-7 and C01-8 falsify (`C06_exec_cex_clear_before_unregister`). -/
+theorem C06_exec_never_refused_in_use (cap : Nat) (as : List MuxExec.Act) (st : MuxExec.St)
+    (h : MuxExec.run (MuxExec.init cap) as = some st) (c : Nat) : st.pc c ≠ .done .inUse :=
+  (MuxExec.inv_run as _ st (MuxExec.inv_init cap) h).no_inuse c
+
+/-- … because on an open connection a registered id is reserved, for the call it is registered for -/
+theorem C06_exec_registered_reserved (cap : Nat) (as : List MuxExec.Act) (st : MuxExec.St)
+    (h : MuxExec.run (MuxExec.init cap) as = some st) (hc : st.closed = false) (s c : Nat) (hr : st.reg s = some c) :
+    st.holder s = some c := by
+  have := (MuxExec.inv_run as _ st (MuxExec.inv_init cap) h).reg_hold s c hr
+  grind
+
+/-- no Clear ever finds its bit already clear or clears a bit that was handed to another call, and every call clears
+    at most once (the allocator's count never goes negative) -/
+theorem C06_exec_release_once (cap : Nat) (as : List MuxExec.Act) (st : MuxExec.St)
+    (h : MuxExec.run (MuxExec.init cap) as = some st) : st.bad = false ∧ ∀ c, st.clears c ≤ 1 :=
+  ⟨(MuxExec.inv_run as _ st (MuxExec.inv_init cap) h).not_bad, (MuxExec.inv_run as _ st (MuxExec.inv_init cap) h).clears_le⟩
+
+/-- a call that took its response, or whose frame was never built, has released its id exactly once when it returns
+    (and already when it is inside releaseStream's observer call-back) -/
+theorem C06_exec_released_exactly_once (cap : Nat) (as : List MuxExec.Act) (st : MuxExec.St)
+    (h : MuxExec.run (MuxExec.init cap) as = some st) (c : Nat)
+    (hp : (∃ o, st.pc c = .fin o) ∨ st.pc c = .done .buildErr ∨ ∃ k, st.pc c = .done (.resp k)) :
+    st.clears c = 1 ∧ ∀ s, st.holder s ≠ some c := by
+  have inv := MuxExec.inv_run as _ st (MuxExec.inv_init cap) h
+  have h1 : st.clears c = 1 := by
+    rcases hp with ⟨o, hp⟩ | hp | ⟨k, hp⟩
+    · exact inv.fin_clears c o hp
+    · exact inv.build_clears c hp
+    · exact inv.resp_clears c k hp
+  refine ⟨h1, ?_⟩
+  intro s hs
+  have := (inv.hold_pc s c hs).2.2.1
+  omega
+
+/-- a quiescent open connection has its full complement of ids: nobody inside exec, nothing outstanding on the wire -/
+theorem C06_exec_quiescent_full (cap : Nat) (as : List MuxExec.Act) (st : MuxExec.St)
+    (h : MuxExec.run (MuxExec.init cap) as = some st) (hc : st.closed = false)
+    (hq : ∀ c, st.pc c = .idle ∨ ∃ o, st.pc c = .done o) (hw : ∀ s, st.wire s = .none) : ∀ s, st.holder s = none := by
+  intro s
+  have inv := MuxExec.inv_run as _ st (MuxExec.inv_init cap) h
+  cases ho : st.holder s with
+  | none => rfl
+  | some c =>
+    have h1 := inv.hold_pc s c ho
+    have h2 := hq c
+    have h3 := hw s
+    have h4 := inv.reg_hold s c
+    grind
+
+/-- the receive loop can always dispose of a response it has read on an open connection: the registered call is in its
+    select (rendezvous) or has closed its timeout channel (recv releases the id) — never still building / writing -/
+theorem C06_exec_recv_never_stuck (cap : Nat) (as : List MuxExec.Act) (st : MuxExec.St)
+    (h : MuxExec.run (MuxExec.init cap) as = some st) (hc : st.closed = false) (s c : Nat) (hw : st.wire s = .answered c) :
+    (MuxExec.step st (.deliver s)).isSome = true := by
+  have inv := MuxExec.inv_run as _ st (MuxExec.inv_init cap) h
+  obtain ⟨_, hp, hr⟩ := inv.wire_hold s c (Or.inr hw)
+  have hr : st.reg s = some c := by grind
+  rcases hp with hp | hp
+  · simp [MuxExec.step, hw, hc, hr, hp]
+  · by_cases hq : st.pc c = .waiting s <;> simp [MuxExec.step, hw, hc, hr, hp, hq]
+
+/-- closeWithError's delivery loop is never stuck for good (the rendezvous the comment at conn.go:1070 is about, no
+    longer atomic in the model): every call it has still to visit is in its select (`req.resp <- err` is ready), or has
+    closed its timeout channel (`<-req.timeout` is ready), or is registered with its frame not yet written — and then
+    the call can move on its own (the write is enabled) and EVERY step it can take makes it ready for the closer -/
+theorem C06_exec_closer_never_stuck (cap : Nat) (as : List MuxExec.Act) (st : MuxExec.St)
+    (h : MuxExec.run (MuxExec.init cap) as = some st) (c : Nat) (hs : c ∈ st.snap) :
+    (MuxExec.step st (.closeDeliver c)).isSome = true ∨
+    (∃ s, st.pc c = .reg s ∧ (MuxExec.step st (.wrote c)).isSome = true ∧
+      ∀ a st', (a = .wrote c ∨ a = .buildFail c ∨ a = .writeCancelled c ∨ a = .writeFailed c) →
+        MuxExec.step st a = some st' → MuxExec.deliverable st' c = true) := by
+  have inv := MuxExec.inv_run as _ st (MuxExec.inv_init cap) h
+  have hcl := (inv.snap_closing c hs).1
+  rcases inv.snap_ok c hs with ⟨s, hp⟩ | hp | ⟨s, hp⟩
+  · left; simp [MuxExec.step, hcl, hs, hp]
+  · left
+    simp only [MuxExec.step, hcl, hs, and_self, if_true]
+    split <;> simp [hp]
+  · right
+    refine ⟨s, hp, by simp [MuxExec.step, hp], ?_⟩
+    intro a st' ha hst
+    rcases ha with ha | ha | ha | ha <;> subst ha <;> simp only [MuxExec.step, hp] at hst <;>
+      injection hst with hst <;> subst hst <;> simp [MuxExec.deliverable, MuxExec.upd]
+
+/-- … and when it is through, closing completes: the connection's context is cancelled and every caller still in its
+    select can return -/
+theorem C06_exec_close_completes (st st' : MuxExec.St) (hc : st.closing = true) (hs : st.snap = [])
+    : (MuxExec.step st .closeFinish).isSome = true ∧
+      (MuxExec.step st .closeFinish = some st' → ∀ c s, st'.pc c = .waiting s → (MuxExec.step st' (.connDone c)).isSome = true) := by
+  refine ⟨by simp [MuxExec.step, hc, hs], ?_⟩
+  intro h c s hw
+  simp only [MuxExec.step, hc, hs, and_self, if_true] at h
+  injection h with h; subst h
+  simp [MuxExec.step] at hw ⊢
+  simp [hw]
+
+/-- Counterexample for the never-written exits of seeded changes C06-7 / C01-8 (`MuxExec.stepClearFirst`: the id is
+    cleared BEFORE the call is removed from c.calls): call 1's frame build fails, its id 1 is cleared, call 2 is handed
+    id 1 and is refused with "stream already in use" - and id 1 stays reserved for ever on an idle open connection. -/
+theorem C06_exec_cex_clear_before_unregister :
+    ∃ st, MuxExec.runClearFirst (MuxExec.init 128)
+        [.getStream 1 1, .addCall 1, .buildFail 1, .nwDelete 1, .getStream 2 1, .addCall 2, .nwClear 1, .finish 1] = some st ∧
+      st.pc 2 = .done .inUse ∧ st.pc 1 = .done .buildErr ∧ st.closed = false ∧ st.holder 1 = some 2 := by
+  refine ⟨_, rfl, ?_, ?_, ?_, ?_⟩ <;> decide
+
+/-- non-vacuity: the same schedule on the machine of the code that exists (delete, THEN clear): call 2 can only be
+    handed id 1 after call 1 has unregistered; it is registered, written, answered, and both ids come back; and a run
+    in which the server closes the transport while call 1 is registered but unwritten: the closer waits, the call
+    writes, the closer delivers the error, closing completes -/
+example : ∃ st, MuxExec.run (MuxExec.init 128)
+    [.getStream 1 1, .addCall 1, .buildFail 1, .nwDelete 1, .nwClear 1, .getStream 2 1, .addCall 2, .finish 1, .wrote 2,
+     .answer 1, .deliver 1, .release 2, .finish 2] = some st ∧
+    st.pc 1 = .done .buildErr ∧ st.pc 2 = .done (.resp 2) ∧ st.clears 1 = 1 ∧ st.clears 2 = 1 ∧ st.holder 1 = none ∧ st.bad = false := by
+  refine ⟨_, rfl, ?_, ?_, ?_, ?_, ?_, ?_⟩ <;> decide
+
+example : ∃ st, MuxExec.run (MuxExec.init 128)
+    [.getStream 1 1, .addCall 1, .closeBegin true, .wrote 1, .closeDeliver 1, .closeFinish] = some st ∧
+    st.pc 1 = .done .connErr ∧ st.ctxDone = true ∧ st.snap = [] := by
+  refine ⟨_, rfl, ?_, ?_, ?_⟩ <;> decide
+
+/-! ## controlConn.close() against the heartbeat loop (`Model/CtlBeat.lean`): close() sends on the unbuffered `quit`,
+    which only the heartbeat goroutine receives, and only in the select at the top of its loop. All schedules. -/
+
+/-- while close() is blocked in its send, the heartbeat goroutine is alive; in its select the handshake is enabled; and
+    anywhere else EVERY step it can take brings it nearer to that select (at most two steps away: a heartbeat in
+    flight that fails, then reconnect(), which returns at once when the state is closing) -/
+theorem C06_ctl_close_never_stuck (as : List CtlBeat.Act) (st : CtlBeat.St) (h : CtlBeat.run CtlBeat.init as = some st)
+    (hc : st.cl = .sending) :
+    (st.hb = .sel ∨ st.hb = .inflight ∨ st.hb = .reconn) ∧
+    (st.hb = .sel → (CtlBeat.step st .takeQuit).isSome = true) ∧
+    (st.hb ≠ .sel → (∃ a, CtlBeat.hbAct a = true ∧ (CtlBeat.step st a).isSome = true) ∧
+      ∀ a st', CtlBeat.hbAct a = true → CtlBeat.step st a = some st' → CtlBeat.toSel st'.hb < CtlBeat.toSel st.hb) := by
+  have inv := CtlBeat.inv_run as _ st CtlBeat.inv_init h
+  have hl := (inv.sending hc).1
+  refine ⟨hl, ?_, ?_⟩
+  · intro hs; simp [CtlBeat.step, hs, hc]
+  · intro hns
+    rcases hl with hl | hl | hl
+    · exact absurd hl hns
+    · refine ⟨⟨.beatOk, rfl, by simp [CtlBeat.step, hl]⟩, ?_⟩
+      intro a st' ha hst
+      cases a <;> simp [CtlBeat.hbAct] at ha <;> simp [CtlBeat.step, hl] at hst <;> subst hst <;> simp [CtlBeat.toSel, hl]
+    · refine ⟨⟨.reconnect, rfl, by simp [CtlBeat.step, hl]⟩, ?_⟩
+      intro a st' ha hst
+      cases a <;> simp [CtlBeat.hbAct] at ha <;> simp [CtlBeat.step, hl] at hst <;> subst hst <;> simp [CtlBeat.toSel, hl]
+
+/-- closing can always complete: from every reachable state in which close() is blocked in its send there is a
+    continuation of at most four steps after which close() has returned, the heartbeat goroutine has returned and the
+    control connection is closed -/
+theorem C06_ctl_close_returns (as : List CtlBeat.Act) (st : CtlBeat.St) (h : CtlBeat.run CtlBeat.init as = some st)
+    (hc : st.cl = .sending) :
+    ∃ bs st', bs.length ≤ 4 ∧ CtlBeat.run st bs = some st' ∧ st'.cl = .done ∧ st'.hb = .exited ∧ st'.connClosed = true := by
+  have inv := CtlBeat.inv_run as _ st CtlBeat.inv_init h
+  rcases (inv.sending hc).1 with hl | hl | hl
+  · exact ⟨[.takeQuit, .closeConn], { st with hb := .exited, cl := .done, connClosed := true }, by simp, by simp [CtlBeat.run, CtlBeat.step, hl, hc], rfl, rfl, rfl⟩
+  · exact ⟨[.beatOk, .takeQuit, .closeConn], { st with hb := .exited, cl := .done, connClosed := true }, by simp, by simp [CtlBeat.run, CtlBeat.step, hl, hc], rfl, rfl, rfl⟩
+  · exact ⟨[.reconnect, .takeQuit, .closeConn], { st with hb := .exited, cl := .done, connClosed := true }, by simp, by simp [CtlBeat.run, CtlBeat.step, hl, hc], rfl, rfl, rfl⟩
+
+/-- Counterexample for the heartbeat loop of seeded change C06-8 (`CtlBeat.stepEarlyReturn`: the goroutine returns at
+    `reconn` when the state is closing): close() arrives while a heartbeat is in flight, the heartbeat fails, the
+    goroutine leaves without taking the handshake - close() is blocked in its send and NOTHING can move any more. -/
+theorem C06_ctl_cex_early_return :
+    ∃ st, CtlBeat.runEarlyReturn CtlBeat.init [.hbStart, .timer, .closeCas, .beatFail, .reconnect] = some st ∧
+      st.cl = .sending ∧ st.hb = .exited ∧ st.connClosed = false ∧
+      ∀ a, CtlBeat.stepEarlyReturn st a = none := by
+  refine ⟨_, rfl, by decide, by decide, by decide, ?_⟩
+  intro a; cases a <;> decide
+
+/-- non-vacuity: the same history on the machine of the code that exists -/
+example : ∃ st, CtlBeat.run CtlBeat.init [.hbStart, .timer, .closeCas, .beatFail, .reconnect, .takeQuit, .closeConn] = some st ∧
+    st.cl = .done ∧ st.hb = .exited ∧ st.connClosed = true := by
+  refine ⟨_, rfl, ?_, ?_, ?_⟩ <;> decide
 
 /-! ## Closing calls back into the owner: the lock discipline of hostConnPool (`Model/PoolLock.lean`)
 
